@@ -344,7 +344,7 @@ func generate(maxN int, emit func(tcase)) {
 
 func run(c *core.Ctx) {
 	e := newEnv(c)
-	maxN := c.Pick(4, 8)
+	maxN := c.Pick(8, 12)
 	c.Note("max_length", maxN)
 	k := 0
 	var srcCases []tcase
